@@ -2148,7 +2148,7 @@ fn is_bit_row(page: Page, op: u8) -> bool {
     matches!(page, Page::CB | Page::DDCB | Page::FDCB) && (0x40..0x80).contains(&op)
 }
 
-/// `regs`: subset of 0 BC 1 DE 2 HL 3 IX 4 IY 5 SP 7 AF.  Every row of `rows` x every register x all
+/// `regs`: subset of 0 BC 1 DE 2 HL 3 IX 4 IY 5 SP 7 AF 8 IR (I high, R low).  Every row of `rows` x every register x all
 /// 65,536 values (block repeats: BC kept small and not swept).
 pub fn swr_cases(r: &mut Rng, prop: &str, rows: &[(Page, u8)], regs: &[u8], per_row: usize) -> Vec<Case> {
     let bits = swr_bits(prop);
@@ -2174,7 +2174,7 @@ pub fn swr_cases(r: &mut Rng, prop: &str, rows: &[(Page, u8)], regs: &[u8], per_
                 }
                 // C10 relates two executions of the same implementation: every flag bit counts
                 let fmask = if prop == "C10" { 0xFF } else if is_bit_row(page, op) { 0x53 } else { 0xD7 };
-                let mut c = Case::new(format!("sweep-reg/{}/{}", ["BC", "DE", "HL", "IX", "IY", "SP", "PC", "AF"][w as usize], tagof(page, op)));
+                let mut c = Case::new(format!("sweep-reg/{}/{}", ["BC", "DE", "HL", "IX", "IY", "SP", "PC", "AF", "IR"][w as usize], tagof(page, op)));
                 c.key = tagof(page, op);
                 c.push(sbox(s.clone()), P_NONE);
                 c.push(Cmd::SWR { which: w, blk: 0, nblk: 1, fmask, link: None }, Proj { swr: bits, ..NONE });
@@ -2274,6 +2274,11 @@ pub fn sweeps_for(prop: &str, r: &mut Rng, tier: &str) -> Vec<Case> {
             v.extend(swr_linked_cases(r, prop, &rows, if quick(tier) { 128 } else { 8 }));
             if prop != "C02" {
                 v.extend(swr_pc_cases(r, prop, 5 * n, &[0xFFFF]));
+            }
+            // I and R as one 16-bit register (8): every value of either for the four instructions that touch them
+            if prop == "C01" || prop == "C02" {
+                let rows_ir = [(Page::ED, 0x57u8), (Page::ED, 0x5F), (Page::ED, 0x47), (Page::ED, 0x4F)];
+                v.extend(swr_cases(r, prop, &rows_ir, &[8], 2 * n));
             }
             v
         }
